@@ -110,7 +110,18 @@ def _ioapi_case(rng):
     n = src['nt'] if dim == 'TSTEP' else src['nl']
     k = rng.randint(2, min(3, n))
     cuts = sorted(rng.sample(range(1, n), k - 1))
-    return dict(kind='ioapi', dim=dim, src=src, edges=[0] + cuts + [n], files=[])
+    case = dict(kind='ioapi', dim=dim, src=src, edges=[0] + cuts + [n], files=[])
+    if rng.random() < 0.4:
+        # the pieces in another order or with one left out (a gap): every variable with the stack dimension, the time
+        # flags included, must be the concatenation of the arguments in their order
+        order = list(range(k))
+        if k >= 3 and rng.random() < 0.5:
+            order.pop(rng.randrange(1, k - 1) if k > 2 else 0)
+        else:
+            while order == list(range(k)):
+                rng.shuffle(order)
+        case['order'] = order
+    return case
 
 
 def gen(rng, tier):
@@ -140,6 +151,10 @@ def _impl_ioapi(case):
                 pc.save(p, format='NETCDF3_CLASSIC', verbose=0).close()
                 paths.append(p)
             outs = {}
+            if case.get('order'):
+                pieces = [pieces[i] for i in case['order']]
+                paths = [paths[i] for i in case['order']]
+                res['pieces'] = [{k: (list(v.dimensions), np.asarray(v[...]).tolist()) for k, v in pc.variables.items()} for pc in pieces]
             o = pieces[0].stack(pieces[1:], dim)
             outs['stack'] = o
             outs['pncmfopen'] = pnc.pncmfopen(paths, format='ioapi', stackdim=dim)
@@ -159,6 +174,18 @@ def _oracle_ioapi(case, res):
     if 'err' in res:
         return 'splitting and stacking an IOAPI file raised %s %s' % (res['err'], res.get('msg'))
     o = res['orig']
+    if case.get('order'):
+        for nm in ('stack', 'pncmfopen'):
+            g = res[nm]
+            for k, (dims, first) in res['pieces'][0].items():
+                if case['dim'] in dims:
+                    want = np.concatenate([np.asarray(pc[k][1]) for pc in res['pieces']], axis=dims.index(case['dim'])).tolist()
+                else:
+                    want = first
+                if g['data'].get(k) != want:
+                    return '%s of pieces %s along %s: %s is not the concatenation of the arguments in their order' % (
+                        nm, case['order'], case['dim'], k)
+        return None
     for nm in ('stack', 'pncmfopen'):
         g = res[nm]
         if g['bad']:
